@@ -90,7 +90,7 @@ var props = map[string]propCfg{
 	"C15": {World: "c15", Level: "exploration", QuickWall: 20, ThoroughSec: 600, Rule: ruleCommon},
 	"C17": {World: "c17", Tags: "binary_log", Level: "fault_enumeration", QuickWall: 25, ThoroughSec: 600, Rule: ruleCommon + " Per run: a binary log stream written by 1-3 logging tasks; every byte offset of the stream (all offsets up to 1200 bytes, else a drawn stride plus +-12 around every event boundary) is taken as crash point, then 10-40 stored-byte/reader fault combinations are applied."},
 	"C18": {World: "c18", Level: "exploration", QuickWall: 20, ThoroughSec: 600, Rule: ruleCommon},
-	"C06": {World: "c06", RaceWorld: "c06race", Level: "exploration", QuickWall: 25, ThoroughSec: 600, Rule: ruleCommon},
+	"C06": {World: "c06", ExtraWorld: "c15", RaceWorld: "c06race", Level: "exploration", QuickWall: 25, ThoroughSec: 600, Rule: ruleCommon},
 }
 
 func env() []string {
@@ -922,7 +922,7 @@ var wantProbes = map[string][]string{
 	"C15": {"linearizable_histories", "mutex_contended", "pool_reuse", "dst_blocks", "dst_error", "huge_line"},
 	"C17": {"crash_point", "bit_flip", "header_overwrite", "huge_length", "zeroed_range", "dropped_range", "duplicated_tail", "garbage_tail", "read_error"},
 	"C18": {"handler_panics", "base_context_logger", "rw_short_write", "rw_error", "rw_partial_then_error", "pool_reuse_other_task"},
-	"C06": {"package_level_helpers", "sink_closed", "derived_in_task", "sink_short_write", "hook_discards_event", "pool_reuse_other_task", "pool_miss", "pool_drop", "sink_overlap", "two_events_open", "sink_blocks_in_write", "sink_error", "global_level_flip", "mutex_contended"},
+	"C06": {"sink_panics", "package_level_helpers", "sink_closed", "derived_in_task", "sink_short_write", "hook_discards_event", "pool_reuse_other_task", "pool_miss", "pool_drop", "sink_overlap", "two_events_open", "sink_blocks_in_write", "sink_error", "global_level_flip", "mutex_contended"},
 }
 
 func writeEvidence(id, tier string, seed uint64, cfg propCfg, st Stats, distinct, nviol int, wallS, buildS float64, workers int, realC, stubC, unreached []string, nknown int, raceRuns int, raceSteps int64, raceWorkers int) {
